@@ -115,9 +115,51 @@ def scaling_cases():
     return cases
 
 
+def coordinate_derivative_scaling_cases():
+    """apply_integral_scaling must move the scaling factor inside ALL nested CoordinateDerivatives and leave
+    the derivative wrappers (direction, coordinate, ...) untouched"""
+    from ufl.algorithms.apply_integral_scaling import apply_integral_scaling
+    from ufl.classes import CoordinateDerivative
+    cases, problems = [], []
+    for cell, g in (("triangle", 2), ("interval", 1)):
+        m = uflgen.mesh(cell, g)
+        f = uflgen.coef((), cell, g)
+        x = ufl.SpatialCoordinate(m)
+        V = ufl.FunctionSpace(m, m.ufl_coordinate_element())
+        dirs = [ufl.Coefficient(V) for _ in range(3)]
+        for meas, mname in ((ufl.dx(m), "dx"), (ufl.ds(m), "ds")):
+            F = f * f * meas
+            for depth in range(0, 4):
+                G = F
+                for k in range(depth):
+                    G = ufl.derivative(G, x, dirs[k])
+                itg_in = G.integrals()[0].integrand()
+                itg_out = apply_integral_scaling(G).integrals()[0].integrand()
+                scale = ufl.as_ufl(compute_integrand_scaling_factor(G.integrals()[0])[0])
+                a, b, d = itg_in, itg_out, 0
+                while isinstance(a, CoordinateDerivative) and isinstance(b, CoordinateDerivative):
+                    if a.ufl_operands[1:] != b.ufl_operands[1:]:
+                        problems.append((cell, mname, depth, "coordinate-derivative operands changed"))
+                    a, b, d = a.ufl_operands[0], b.ufl_operands[0], d + 1
+                if isinstance(a, CoordinateDerivative) or isinstance(b, CoordinateDerivative) or d != depth:
+                    problems.append((cell, mname, depth, "nesting depth of coordinate derivatives changed"))
+                    continue
+                nm = f"cdscale_{cell[:3]}{g}_{mname}_d{depth}"
+                cases.append(coqgen.Case(nm, out=b, spec=f"mul (DEN s rho {nm}_SC []) (DEN s rho {nm}_IN [])",
+                                         named={"SC": scale, "IN": a}, comps=[()],
+                                         note={"integral": mname, "cell": cell, "coordinate_derivative_depth": depth,
+                                               "innermost_output": str(b)[:200]}))
+    return cases, problems
+
+
 def main(run):
     ok_a = part_a(run)
     cases = scaling_cases()
+    cdcases, cdproblems = coordinate_derivative_scaling_cases()
+    cases += cdcases
+    for pr in cdproblems:
+        run.violation({"broken": "apply_integral_scaling does not keep the coordinate-derivative wrappers",
+                       "witness": {"cell": pr[0], "measure": pr[1], "depth": pr[2], "what": pr[3]}}, True)
     for c in cases:
         run.count_case(c.name)
     failing = coqgen.emit_and_check(run, "C01scale", cases, shards=4)
@@ -125,7 +167,10 @@ def main(run):
         run.violation({"broken_obligation": lemma, "case": getattr(case, "name", None), "coq_message": msg,
                        "note": getattr(case, "note", None),
                        "witness": {"integral_type": case.note.get("integral_type"), "cell": case.note.get("cell"),
-                                   "scaling_factor_built": str(case.out), "expected": str(case.inp)} if case else None},
+                                   "coordinate_derivative_depth": case.note.get("coordinate_derivative_depth"),
+                                   "built": str(case.out)[:400],
+                                   "expected": str(case.inp)[:400] if case.inp is not None else
+                                   "scaling factor * innermost integrand"} if case else None},
                       case is not None)
     try:
         import C01_e2e
